@@ -262,9 +262,20 @@ fn dangling_leaf_graph(rng: &mut Rng, form: Form) -> Graph {
         Form::Pre => format!("{name} {v} ;\n"),
         Form::Compile => format!("static const int {name} = {v} ;\n"),
     };
+    // half of the trees reach the leaves through a sibling, so that the very spelling that
+    // dangles in the entry file has been answered before - once per directory
+    let through_sibling = rng.chance(1, 2);
     for (i, d) in chosen.iter().enumerate() {
         fs.files.insert(format!("{d}/{leaf}"), marker(&format!("m_{}_1", i + 1), i as u64 + 1));
-        main.push_str(&format!("#include \"{d}/{leaf}\"\n"));
+        if through_sibling {
+            fs.files.insert(
+                format!("{d}/use.h"),
+                format!("#include \"{leaf}\"\n{}", marker(&format!("m_{}_2", i + 1), i as u64 + 11)),
+            );
+            main.push_str(&format!("#include \"{d}/use.h\"\n"));
+        } else {
+            main.push_str(&format!("#include \"{d}/{leaf}\"\n"));
+        }
     }
     main.push_str(&marker("m_0_1", 9));
     main.push_str(&format!("#include \"{leaf}\"\n"));
@@ -556,14 +567,34 @@ pub fn generate(rng: &mut Rng, mode: Mode, form: Form) -> Graph {
                 }
                 12 => {
                     let l = ["u", "v", "w"][rng.below(3) as usize];
-                    lines.push(format!("CAT({l},{}) m_{i}_x ;", rng.range(1, 9)));
+                    if rng.chance(1, 4) {
+                        let (a, b) = [("ret", "urn"), ("tr", "ue"), ("ino", "ut"), ("str", "uct")][rng.below(4) as usize];
+                        lines.push(format!("CAT({a},{b}) m_{i}_x ;"));
+                    } else {
+                        lines.push(format!("CAT({l},{}) m_{i}_x ;", rng.range(1, 9)));
+                    }
                 }
                 13 => {
                     counter += 1;
-                    lines.push(format!(
-                        "static const int CAT(mk_{i}_,{counter}) = {} ;",
-                        rng.range(1, 9)
-                    ));
+                    if rng.chance(1, 4) {
+                        // a paste that spells a keyword is that keyword
+                        let (a, b) = [("sta", "tic"), ("st", "atic"), ("s", "tatic")][rng.below(3) as usize];
+                        lines.push(format!(
+                            "CAT({a},{b}) const int mk_{i}_k{counter} = {} ;",
+                            rng.range(1, 9)
+                        ));
+                    } else if rng.chance(1, 4) {
+                        let (a, b) = [("con", "st"), ("c", "onst")][rng.below(2) as usize];
+                        lines.push(format!(
+                            "static CAT({a},{b}) int mk_{i}_k{counter} = {} ;",
+                            rng.range(1, 9)
+                        ));
+                    } else {
+                        lines.push(format!(
+                            "static const int CAT(mk_{i}_,{counter}) = {} ;",
+                            rng.range(1, 9)
+                        ));
+                    }
                 }
                 14 => {
                     let d = function_define(rng);
@@ -593,7 +624,12 @@ pub fn generate(rng: &mut Rng, mode: Mode, form: Form) -> Graph {
                         _ => ["0x10", "007", "0x0a", "00", "0x1f"][rng.below(5) as usize].to_string(),
                     };
                     let l = ["u", "v", "w"][rng.below(3) as usize];
-                    lines.push(format!("m_{i}_{counter} CAT({l},{r}) ;"));
+                    if rng.chance(1, 5) {
+                        // two literals: the replacement holds no identifier at all
+                        lines.push(format!("m_{i}_{counter} CAT({},{}) ;", rng.range(1, 99), rng.range(0, 99)));
+                    } else {
+                        lines.push(format!("m_{i}_{counter} CAT({l},{r}) ;"));
+                    }
                 }
                 _ => {}
             }
